@@ -354,6 +354,12 @@ pub fn table_relation(t: &J) -> Relation {
             )
         })
         .collect();
+    if let Some(path) = t["path"].as_array() {
+        // a table that lives under a multi-part path (schema.table)
+        let path: Vec<String> = path.iter().map(|p| p.as_str().unwrap().to_string()).collect();
+        let size = qrlew::data_type::Integer::from_value(t["size"].as_i64().unwrap_or(1));
+        return Relation::Table(qrlew::relation::Table::new(name.to_string(), path.into(), Schema::new(fields), size));
+    }
     if let Some(ivs) = t["size_ivs"].as_array() {
         // a size interval cannot be given through the builder
         let size = ivs.iter().fold(qrlew::data_type::Integer::empty(), |acc, p| {
@@ -387,11 +393,20 @@ pub fn create_table(conn: &Connection, t: &J) -> Result<(), String> {
         .iter()
         .map(|c| format!("\"{}\" {}", c["n"].as_str().unwrap().replace('"', "\"\""), affinity(&c["t"])))
         .collect();
-    conn.execute(&format!("CREATE TABLE \"{}\" ({})", name.replace('"', "\"\""), cols.join(", ")), [])
+    // a table under a two-part path lives in an attached database of that name
+    let qualified = match t["path"].as_array() {
+        Some(path) if path.len() == 2 => {
+            let (schema, table) = (path[0].as_str().unwrap(), path[1].as_str().unwrap());
+            let _ = conn.execute(&format!("ATTACH DATABASE ':memory:' AS \"{}\"", schema), []);
+            format!("\"{}\".\"{}\"", schema, table)
+        }
+        _ => format!("\"{}\"", name.replace('"', "\"\"")),
+    };
+    conn.execute(&format!("CREATE TABLE {} ({})", qualified, cols.join(", ")), [])
         .map_err(|e| e.to_string())?;
     let ph: Vec<&str> = cols.iter().map(|_| "?").collect();
     let mut st = conn
-        .prepare(&format!("INSERT INTO \"{}\" VALUES ({})", name.replace('"', "\"\""), ph.join(",")))
+        .prepare(&format!("INSERT INTO {} VALUES ({})", qualified, ph.join(",")))
         .map_err(|e| e.to_string())?;
     if let Some(rows) = t["rows"].as_array() {
         for r in rows {
@@ -409,7 +424,11 @@ pub fn relations_of(tables: &J) -> Hierarchy<std::sync::Arc<Relation>> {
         .iter()
         .map(|t| {
             let r = table_relation(t);
-            (vec![r.name().to_string()], std::sync::Arc::new(r))
+            let key = match t["path"].as_array() {
+                Some(path) => path.iter().map(|p| p.as_str().unwrap().to_string()).collect(),
+                None => vec![r.name().to_string()],
+            };
+            (key, std::sync::Arc::new(r))
         })
         .collect()
 }
